@@ -123,6 +123,30 @@ def underscore_oneofs():
     return "underscore-oneofs", [f], [f], ["declared oneofs named with a leading underscore: alone, before another oneof, with proto3 optional"]
 
 
+def same_basename_cross_package():
+    """Target files named like a file of another package they take a type from: only the package distinguishes the import of
+    that file from an import of the module itself (dependency _pb2 files, and a proto-plus file of a proto sub-package)."""
+    dep = File("foo/bar/common.proto", "foo.bar")
+    th = dep.message("Thing"); th.field("id", 1, "int64")
+    lvl = dep.enum("Level", ["LEVEL_UNSPECIFIED", ("HIGH", 4)])
+    subf = File(f"{D}/sub/common.proto", P + ".sub")
+    deep = subf.message("Deep"); deep.field("x", 1, "sint32")
+    dk = subf.enum("DeepKind", ["DEEP_KIND_UNSPECIFIED", "DEEP"])
+    ops = File(f"{D}/operations.proto", P, deps=["google/longrunning/operations.proto"])
+    job = ops.message("Job")
+    job.field("name", 1, "string").field("op", 2, ".google.longrunning.Operation").field("history", 3, ".google.longrunning.Operation", repeated=True)
+    job.map_field("by_name", 4, "string", ".google.longrunning.Operation")
+    st = File(f"{D}/status.proto", P, deps=["google/rpc/status.proto"])
+    rep = st.message("Report"); rep.field("status", 1, ".google.rpc.Status").field("code", 2, "int32", optional=True)
+    com = File(f"{D}/common.proto", P, deps=["foo/bar/common.proto", f"{D}/sub/common.proto"])
+    own = com.message("Own"); own.field("v", 1, "string")
+    both = com.message("Both")
+    both.field("thing", 1, th.fqn).field("level", 2, ("enum", lvl)).field("deep", 3, deep.fqn).field("deep_kind", 4, ("enum", dk), repeated=True)
+    both.field("own", 5, own.fqn).map_field("deeps", 6, "int32", deep.fqn)
+    return ("same-basename-cross-package", [dep, subf, ops, st, com], [subf, ops, st, com],
+            ["target file named like a dependency _pb2 file / a sub-package proto-plus file it references", "proto-sub-package"])
+
+
 def enum_negative():
     f = File(f"{D}/main.proto", P)
     e = f.enum("Temp", ["TEMP_UNSPECIFIED", ("HOT", 1), ("COLD", -1)])
@@ -134,7 +158,7 @@ def main():
     d = os.path.join(env.VERIF, "corpus", "C02")
     os.makedirs(d, exist_ok=True)
     for name, files, togen, feats in [kitchen_sink(), pb2_clash(False), pb2_clash(True), pb2_clash(False, "fab.baz"),
-                                      rel_misfire(False), rel_misfire(True), module_named_field(), proto_alias_with_enums(), underscore_oneofs(),
+                                      rel_misfire(False), rel_misfire(True), module_named_field(), proto_alias_with_enums(), underscore_oneofs(), same_basename_cross_package(),
                                       enum_negative()]:
         req = apigen.request(files, to_generate=[f.proto.name for f in togen], parameter="transport=grpc")
         with open(os.path.join(d, name + ".json"), "w") as fh:
